@@ -1,0 +1,11 @@
+//go:build verif
+
+package mp4
+
+// Add-only observation hooks for the C05 verification harness (unexported bookkeeping of fragments).
+
+// VerifC05NextTrunNr returns the fragment's next trun write-order number.
+func VerifC05NextTrunNr(f *Fragment) uint32 { return f.nextTrunNr }
+
+// VerifC05WriteOrderNr returns the trun's write-order number.
+func VerifC05WriteOrderNr(t *TrunBox) uint32 { return t.writeOrderNr }
